@@ -27,7 +27,7 @@ package utils
 //@   ensures [iff-hook] (result == nil) == IsHook(f)
 
 // The walk callback: decision table over (path, f, err).
-//@ func RecursiveGetExecutablePaths$1
+//@ func RecursiveGetExecutablePaths$[dir,excludedDirs,paths]
 //@   prop C20
 //@   requires Sentinels() && f != nil
 //@   modifies captured(paths), allelems(string)
